@@ -1,1 +1,103 @@
-(* placeholder *)
+(* C18/Properties.v — property theorems only: statement, `exact`, Print Assumptions. *)
+From Coq Require Import ZArith List Bool Permutation.
+From C18 Require Import Model Generated Spec Proofs Confs.
+Import ListNotations.
+Open Scope Z_scope.
+
+(* The checker that is run on every history recorded from the real FileCache decides exactly the
+   definition of linearizability against one register per file (Spec.lin_spec): some permutation of
+   the finished operations respects the real-time order, is a legal sequential run from the initial
+   files (get returns the current contents, a successful update sets them, a failed update and unload
+   change nothing) and ends in the observed final files. Histories of ANY length. *)
+Theorem C18_checker_decides_linearizability : forall init h final,
+  linearizable init h final = true <-> lin_spec init h final.
+Proof. exact linearizable_iff. Qed.
+Print Assumptions C18_checker_decides_linearizability.
+
+(* Closed finite sets of global states are invariants of ALL schedules of ANY length. *)
+Theorem C18_closed_set_invariant : forall fl cf P st, closed fl cf P st = true ->
+  forall s, reach fl cf s ->
+    P s = true /\ forall t s', step fl (cfg_max cf) s t = Some s' -> (weight s' < weight s)%nat.
+Proof. exact closed_set_invariant. Qed.
+Print Assumptions C18_closed_set_invariant.
+
+(* The statement of the property for one configuration, over every schedule (Spec.v):
+     C18_full_statement fl cf       every run is finite; when no thread can move, every call has returned, the
+                                    history is linearizable with the disk as final register contents, and
+                                    disk = cached contents, entry sizes = len, current_memory_usage = sum of entries
+     C18_outside_K_statement fl cf  the same for the runs in which no client unloaded an in-flight entry (g_k = 0)
+   Bound, written out: U21 = 2 client threads x 1 operation in {get, update, unload} x files {0,1}, all 36 ordered
+   pairs, in 4 environments (144 configurations); U22 = 2 threads x 2 operations on file 0 (81 configurations);
+   U31 = 3 threads x 1 operation on file 0 (27 configurations); U2112 below.  No bound on schedules.
+   `racy cf` = two different threads address the same file, one with get/update and the other with unload, or one
+   with get and the other with update (the configuration class of the known defect). *)
+Theorem C18_conf_2x1 : forall cf, In cf U21 ->
+  C18_outside_K_statement gen_flags cf /\ (racy cf = false -> C18_full_statement gen_flags cf).
+Proof. exact (conf_2x1 (eq_refl : shape_ok = true)). Qed.
+Print Assumptions C18_conf_2x1.
+
+Theorem C18_conf_2x2 : forall cf, In cf U22 ->
+  C18_outside_K_statement gen_flags cf /\ (racy cf = false -> C18_full_statement gen_flags cf).
+Proof. exact (conf_2x2 (eq_refl : shape_ok = true)). Qed.
+Print Assumptions C18_conf_2x2.
+
+Theorem C18_conf_3x1 : forall cf, In cf U31 ->
+  C18_outside_K_statement gen_flags cf /\ (racy cf = false -> C18_full_statement gen_flags cf).
+Proof. exact (conf_3x1 (eq_refl : shape_ok = true)). Qed.
+Print Assumptions C18_conf_3x1.
+
+(* U2112 = 2 threads, 2 operations || 1 operation in {get, update} x files {0,1}, both files on disk, max_memory 6
+   so that the two files do not fit together and completions evict (64 configurations). *)
+Theorem C18_conf_2plus1_evict : forall cf, In cf U2112 ->
+  C18_outside_K_statement gen_flags cf /\ (racy cf = false -> C18_full_statement gen_flags cf).
+Proof. exact (conf_2plus1_evict (eq_refl : shape_ok = true)). Qed.
+Print Assumptions C18_conf_2plus1_evict.
+
+(* The full statement is false on the racy class. K1 = update_file unloads the entry of a pending load:
+   {get(0) || update(0)}, file on disk, not cached.  Witness 1: the get returns b"" (torn read), the history
+   is not linearizable and current_memory_usage ends at 2 for 7 cached bytes. *)
+Theorem C18_K1_torn_read_refuted :
+  exists s, reach gen_flags cfg_get_upd s /\ enabled gen_flags (cfg_max cfg_get_upd) s = [] /\
+    ~ lin_spec (cfg_disk cfg_get_upd) (rev (g_hist s)) (disk (g_core s)) /\ final_agree s = false /\
+    In (ERet 0 0 (RCont [])) (g_hist s) /\ mem (g_core s) = 2.
+Proof. exact k1_torn. Qed.
+
+(* Witness 2 (other completion order): linearizable history, but the entry says 5 bytes for 7 cached bytes (current_memory_usage 7). *)
+Theorem C18_K1_accounting_refuted :
+  exists s, reach gen_flags cfg_get_upd s /\ enabled gen_flags (cfg_max cfg_get_upd) s = [] /\
+    lin_spec (cfg_disk cfg_get_upd) (rev (g_hist s)) (disk (g_core s)) /\ final_agree s = false /\
+    mem_agrees (g_core s) = false.
+Proof. exact k1_acct. Qed.
+
+(* K2 = unload_file during a pending load: get_file raises AssertionError, current_memory_usage = -5. *)
+Theorem C18_K2_unload_during_load_refuted :
+  exists s, reach gen_flags cfg_get_unl s /\ enabled gen_flags (cfg_max cfg_get_unl) s = [] /\
+    ~ lin_spec (cfg_disk cfg_get_unl) (rev (g_hist s)) (disk (g_core s)) /\ final_agree s = false /\
+    In (ERet 0 0 (RExn EAssert)) (g_hist s) /\ mem (g_core s) = -5.
+Proof. exact k2. Qed.
+
+(* K3 = unload_file during a pending write: update_file raises AssertionError. *)
+Theorem C18_K3_unload_during_write_refuted :
+  exists s, reach gen_flags cfg_upd_unl s /\ enabled gen_flags (cfg_max cfg_upd_unl) s = [] /\
+    ~ lin_spec (cfg_disk cfg_upd_unl) (rev (g_hist s)) (disk (g_core s)) /\ final_agree s = false /\
+    In (ERet 0 0 (RExn EAssert)) (g_hist s).
+Proof. exact k3. Qed.
+
+(* Non-vacuity: the universes have the stated sizes, contain the witness configurations, contain
+   non-racy configurations, and a concrete concurrent history is accepted / a torn one rejected. *)
+Example C18_universe_sizes :
+  length U21 = 144%nat /\ length U22 = 81%nat /\ length U31 = 27%nat /\ length U2112 = 64%nat /\
+  length (filter (fun cf => negb (racy cf)) U2112) = 36%nat /\
+  nth_error U21 2 = Some cfg_get_upd /\ nth_error U21 4 = Some cfg_get_unl /\ nth_error U21 16 = Some cfg_upd_unl /\
+  length (filter (fun cf => negb (racy cf)) U21) = 96%nat /\
+  nth_error U31 13 = Some (mkCfg BIG [(0, cA)] [[OUpd 0 u1]; [OUpd 0 u2]; [OUpd 0 u3]]) /\
+  racy (mkCfg BIG [(0, cA)] [[OUpd 0 u1]; [OUpd 0 u2]; [OUpd 0 u3]]) = false.
+Proof. vm_compute. repeat split. Qed.
+
+Example C18_checker_example :
+  let h_ok := [ECall 0 0 (OGet 0); ECall 1 0 (OUpd 0 u1); ERet 1 0 (RBool true); ERet 0 0 (RCont cA)] in
+  let h_torn := [ECall 0 0 (OGet 0); ECall 1 0 (OUpd 0 u1); ERet 0 0 (RCont []); ERet 1 0 (RBool true)] in
+  let h_late := [ECall 1 0 (OUpd 0 u1); ERet 1 0 (RBool true); ECall 0 0 (OGet 0); ERet 0 0 (RCont cA)] in
+  linearizable [(0, cA)] h_ok [(0, u1)] = true /\ linearizable [(0, cA)] h_torn [(0, u1)] = false /\
+  linearizable [(0, cA)] h_late [(0, u1)] = false /\ linearizable [(0, cA)] h_ok [(0, cA)] = false.
+Proof. vm_compute. repeat split. Qed.
